@@ -292,6 +292,9 @@ func c15Card(rs []imapnum.Range) (uint64, bool) {
 		if r.Start == 0 || r.Stop == 0 {
 			continue // dynamic: Nums reports !ok when it gets there
 		}
+		if r.Stop < r.Start {
+			return 0, false // not a canonical set: judged by the ops oracle, never enumerated
+		}
 		c += uint64(r.Stop) - uint64(r.Start) + 1
 	}
 	return c, c <= 20000
